@@ -68,7 +68,7 @@ def validate_traces(ctx, traces, label):
                     out.write(line)
                     n_events += 1
             out.write('{"ev":"Finish"}\n')
-    r = ctx.tlc("PipelineTrace", TCFG % path, workers=1, label=label, allow_violation=True, timeout=1800, jvm="-XX:ParallelGCThreads=2")
+    r = ctx.tlc("PipelineTrace", TCFG % path, workers=1, label=label, allow_violation=True, timeout=1800, jvm="-XX:ParallelGCThreads=2 -Xmx3g")
     return r, path, n_events
 
 
@@ -194,7 +194,7 @@ def run(ctx):
             r = subprocess.run(cmd, cwd=dst, env=env, stdout=subprocess.PIPE, stderr=subprocess.PIPE, text=True, timeout=300)
             text = r.stdout if drv == "binary" else r.stderr
             ds, errs = proglib.parse_json_tree(text, dst)
-            if errs or "panic:" in r.stderr:
+            if errs or vlib.crashed(r.stderr):
                 ctx.violation("fixture %s under %s driver failed: %s" % (name, drv, (errs or r.stderr)[:300]), {"kind": "fixture", "fixture": name, "driver": drv})
             fx_diags[(name, drv)] = {(d["file"], d["line"], d["code"]) for d in proglib.dedup(ds)}
             if os.path.exists(tr):
